@@ -195,6 +195,39 @@ def auth_connect_faults(ctx, mode):
     return traces, meta
 
 
+def subclass_hook_faults(ctx, mode):
+    """The caller uses a subclass whose close() says good-bye to the device with a command while the connection is up.  A transport call
+    fails in the middle of an operation; the caller then reconnects WITHOUT close() (connect() is documented to do that on its own):
+    the reconnect succeeds and commands work - connect() does not route through the subclass's hook."""
+    traces, meta = [], []
+    for k in range(2, 14):
+        for kind in ('timeout', 'reset'):
+            dev = simdev.SimDevice(seed=ctx.seed + k)
+            dev.shell_scripts[b'shell:id'] = [b'uid=0']
+            dev.shell_scripts[b'shell:echo bye'] = [b'bye']
+            fault = transports.Fault(at={k: kind})
+            sess = env.Session(mode, dev, fault=fault, tick=0.001, default_transport_timeout_s=None, subclass='goodbye')
+            sess.core.max_calls = 5000
+            tr = []
+            o = sess.call('connect', read_timeout_s=2.0, transport_timeout_s=1.0)
+            tr.append(dict(ev='op', api='connect', outcome='exc' if o.kind == 'exc' else 'same', locksFree=locks_free(sess), faulted=bool(fault.fired)))
+            if o.kind == 'ret':
+                o1 = sess.call('shell', 'id', decode=False, read_timeout_s=2.0, transport_timeout_s=1.0)
+                tr.append(dict(ev='op', api='shell', outcome='exc' if o1.kind == 'exc' else ('same' if o1.value == b'uid=0' else 'wrong'), locksFree=locks_free(sess), faulted=bool(fault.fired)))
+            o2 = sess.call('connect', read_timeout_s=2.0, transport_timeout_s=1.0)
+            hang = o2.kind == 'exc' and o2.exc_name in ('Watchdog', 'LockLeak')
+            if hang:
+                tr.append(dict(ev='op', api='connect', outcome='hang', locksFree=locks_free(sess), faulted=True))
+            tr.append(dict(ev='reconnect', ok=(o2.kind == 'ret' and o2.value is True), avail=bool(sess.device.available), locksFree=locks_free(sess), faulted=False))
+            if o2.kind == 'ret':
+                o3 = sess.call('shell', 'id', decode=False, read_timeout_s=2.0)
+                tr.append(dict(ev='op', api='shell', outcome='same' if (o3.kind == 'ret' and o3.value == b'uid=0') else ('exc' if o3.kind == 'exc' else 'wrong'), locksFree=locks_free(sess), faulted=False))
+            sess.close_loop()
+            traces.append(tr)
+            meta.append(dict(kind="a subclass with a close() hook; reconnect without close() after a fault", mode=mode, at={str(k): kind}))
+    return traces, meta
+
+
 def baseline_for(mode, seed):
     spec, dev, sess, rr, args, tr, outs, fault, ncalls = one_run(mode, seed, {})
     sess.call('close')
@@ -250,6 +283,9 @@ def body(ctx):
                     traces.append(tr)
                     meta.append(dict(kind='fault-in-recovery', mode=mode, at={str(ncalls + extra): kind}, recovery_without_close=skip_close))
         t_a, m_a = auth_connect_faults(ctx, mode)
+        traces += t_a
+        meta += m_a
+        t_a, m_a = subclass_hook_faults(ctx, mode)
         traces += t_a
         meta += m_a
         if not ctx.quick:
